@@ -22,10 +22,8 @@ def keep(rid):
     r = json.load(open(rp))
     pid, mn = rid.split("_")
     src = "/tmp/sw/%s/out/%s" % (pid, mn)
-    if mn.startswith("d"):  # fourth round
-        src = "/tmp/sw/%sd/out/m%s" % (pid.upper() if 'upper' in dir(pid) else pid, mn[1:])
-    if mn.startswith("c"):  # third round
-        src = "/tmp/sw/%sc/out/m%s" % (pid.upper() if 'upper' in dir(pid) else pid, mn[1:])
+    if mn[0] in "cdefg":  # third and later rounds: /tmp/sw/<PID><letter>/out/m<k> is kept as <PID>_<letter><k>
+        src = "/tmp/sw/%s%s/out/m%s" % (pid.upper(), mn[0], mn[1:])
     if mn.startswith("b"):
         src = "/tmp/sw/%sb/out/m%s" % (pid, mn[1:])
     dst = os.path.join(OUT, rid)
@@ -65,7 +63,7 @@ def keep(rid):
 
 def index():
     rows = []
-    for d in sorted(glob.glob(os.path.join(OUT, "C*_[mbcd]*"))):
+    for d in sorted(glob.glob(os.path.join(OUT, "C*_[mbcdefg]*"))):
         m = json.load(open(os.path.join(d, "meta.json")))
         rows.append("| %s | %s | %s | %s | %s |" % (m["id"], m.get("title", "").replace("|", "/"), ", ".join(m.get("files", [])), (m.get("needs", "") or "").replace("|", "/").replace("\n", " ")[:160], ", ".join(m.get("caught_by", [])) or "**missed**"))
     open(os.path.join(OUT, "INDEX.md"), "w").write(
